@@ -576,10 +576,12 @@ def check_projection(rep, prog, m):
     badd, badu, n_runs = [], [], 0
     try:
         for n in range(1, 5):
-            for pattern in itertools.product((None, 'F'), repeat=n):
-                fixed = [None if x is None else mx.Sym('f%d' % k) for k, x in enumerate(pattern)]
+            # a fixed value is a non-zero symbol ('F') or the number zero ('Z': fixing a parameter at 0 is legitimate and must not be
+            # confused with 'free')
+            for pattern in itertools.product((None, 'F', 'Z') if n <= 3 else (None, 'F'), repeat=n):
+                fixed = [None if x is None else (mx.Sym('f%d' % k, truth=True) if x == 'F' else 0.0) for k, x in enumerate(pattern)]
                 free = [k for k, x in enumerate(pattern) if x is None]
-                tag = 'fixed pattern %s' % ''.join('-' if x is None else 'F' for x in pattern)
+                tag = 'fixed pattern %s' % ''.join('-' if x is None else x for x in pattern)
                 # down
                 pin = [mx.Sym('p%d' % k) for k in range(n)]
                 it = mx.Interp(prog, m, known_functions=known, call_hook=hook)
@@ -594,7 +596,7 @@ def check_projection(rep, prog, m):
                 paths = [p_ for p_ in it.run(up, {'pin': pin, 'fixed_params': list(fixed)}) if p_[0][0] == 'return']
                 n_runs += 1
                 got = content(paths[0][0][1], paths[0][1]) if len(paths) == 1 else None
-                want = ['q%d' % free.index(k) if k in free else 'f%d' % k for k in range(n)]
+                want = ['q%d' % free.index(k) if k in free else mx.show(fixed[k]) for k in range(n)]
                 if got != want:
                     badu.append('%s: returns %s, expected %s' % (tag, got if got is not None else mx.show(paths[0][0][1])[:50] if paths else 'nothing', want))
                 if len(free) == 1:
